@@ -33,6 +33,7 @@ def generate(rng, tier):
                     out.append([s_, t_, l_])
             lab = rng.choice([None, None, [], rng.sample(labels + ["zz"], rng.randrange(1, len(labels) + 1))])
             cases.append({"k": "ann", "regime": regime, "recs": out, "labels": lab})
+    cases += gen.far_copies(rng, cases, ['segs', 'recs'], (400 if tier == "thorough" else 60))
     return {"cases": cases, "meta": {"exhaustive": True, "small_scope_max_segments": k,
                                      "sizes": gen.stats(cases, {"n_segments": lambda c: len(c.get("segs", c.get("recs", [])))})}}
 
